@@ -246,7 +246,7 @@ theorem sockRut_udp (s : St) (n : Nat) (t : Option Int) (hk : s.kind = .udp) : U
   cases o with
   | exc e =>
     cases e with
-    | timeout => exact ⟨h.1, by simp [takeAll]⟩
+    | timeout => exact ⟨h.1, by simp [takeBuf]⟩
     | eof =>
       simp only
       split
